@@ -10,6 +10,7 @@ import (
 	"fmt"
 
 	"istio.io/istio/pilot/pkg/model"
+	v3 "istio.io/istio/pilot/pkg/xds/v3"
 	"istio.io/istio/pkg/util/sets"
 	"istio.io/istio/pkg/xds"
 	"verifharness/internal/wire"
@@ -46,8 +47,11 @@ func (o *histOracle) get(t string) *hist {
 	return o.h[t]
 }
 
-func namedType(t string) bool   { return !xds.IsWildcardTypeURL(typeURL[t]) }
-func managedType(t string) bool { return t == "WDS" || t == "WL" }
+func namedType(t string) bool { return !xds.IsWildcardTypeURL(typeURL[t]) }
+func managedType(t string) bool {
+	u := typeURL[t]
+	return u == v3.AddressType || u == v3.WorkloadType
+}
 
 // expect is what the property demands for one request, given the history.
 type expect struct {
@@ -212,7 +216,11 @@ func (o *histOracle) sendDelta(t, nonce string, newNames []string, setNames bool
 // delta wildcard types follow the generated resources (bookkeeping of property C03); they are taken over from
 // the server after checking that nothing the client was told to remove stays on record.
 func (o *histOracle) checkTable(proxy *model.Proxy, delta, adoptWildcard bool, got []presp, line string) {
-	for _, t := range typeOrder {
+	order := typeOrder
+	if _, ok := typeURL["T"]; ok {
+		order = []string{"T"} // stream tproc: the one type of the case
+	}
+	for _, t := range order {
 		w := proxy.WatchedResources[typeURL[t]]
 		h := o.get(t)
 		if (w != nil) != h.exists {
